@@ -171,7 +171,7 @@ PROPS['C08'] = {
                    'instruction, the closing brace / RET emit exactly one "ret", CALL is accepted iff the name is a procedure; (interpreter) CALL pushes its index + 1 and '
                    'continues at the recorded index, RET resumes at the innermost pushed index (2 nested calls, arbitrary pre-existing frame), RET without CALL is an error value',
     'bounds': 'out.code holds <= 3 lines, tables hold one name, call nesting 2 (+1 pre-existing frame); String loops unwound 6-8 times',
-    'extra_harnesses': r'^c14_(label|proc)_definition$|^c14_call$',
+    'extra_harnesses': r'^c14_(label|proc)_definition$|^c14_call$|^c06_combiner$',
     'outside': 'the run loop of CMDDriver::run (start lookup, appended hlt, State dispatch), hence program-level traces; macro expansion (C13)',
     'backends': [(r'.*', ['sat', 'z3'])],
     'assumptions': ['label / procedure tables = association list under Kani', 'alloc::fmt::format stubbed'],
